@@ -21,6 +21,9 @@ putchar :: (c: char) -> i32 extern;
 mark :: (n: i64) { printf("\\n@%ld\\n", n); }
 nilf :: () -> ?i32 { nil }
 Oops :: enum { Bad, Worse };
+oopsf :: () -> Oops!i32 { Oops.Bad }
+Nothing :: struct {};
+nothingf :: () -> Nothing!i32 { Nothing.{} }
 '''
 
 # skeleton nodes: tuples
@@ -189,9 +192,9 @@ class Printer:
                 elif kind == "continue":
                     self.lines.append(f"{pad}continue{lab};")
                 elif kind == "return":
-                    self.lines.append(f"{pad}return 5;" if self.form == "opt-i32-tail" else f"{pad}return;")
+                    self.lines.append(f"{pad}{RETURNS.get(self.form, 'return;')}")
                 else:
-                    self.lines.append(f"{pad}nilf().try;")
+                    self.lines.append(f"{pad}{TRY_CALLS[self.form]}().try;")
 
 
 FORMS = {
@@ -200,7 +203,12 @@ FORMS = {
     "void": ("", ""),             # the body falls off its end; `return;`
     "opt-void": (" -> ?void", ""),  # a block type that can be created from nothing but is not zero-sized
     "err-void": (" -> Oops!void", ""),
+    "err-i32-tail": (" -> Oops!i32", "    7\n"),
+    # the error type has no data: the result of the function (and the target of `.try`) is zero-sized
+    "zero-sized-error": (" -> Nothing", "    Nothing.{}\n"),
 }
+RETURNS = {"opt-i32-tail": "return 5;", "err-i32-tail": "return 5;", "zero-sized-error": "return Nothing.{};"}
+TRY_CALLS = {"opt-i32-tail": "nilf", "opt-void": "nilf", "void": "nilf", "err-void": "oopsf", "err-i32-tail": "oopsf", "zero-sized-error": "nothingf"}
 
 
 def render(items, name, form="opt-i32-tail"):
@@ -421,11 +429,11 @@ def run(tier, seed):
         skeletons.append(items)
     cases = [make_case(i, items) for i, items in enumerate(skeletons)]
     # the same skeletons in functions whose body falls off its end (void, ?void, E!void results); quick: <= 3 items
-    for form in ("void", "opt-void", "err-void"):
+    for form in ("void", "opt-void", "err-void", "err-i32-tail", "zero-sized-error"):
         for i, items in enumerate(skeletons):
             if quick and count_items(items) > 3:
                 continue
-            if has_try(items) and form != "opt-void":
+            if has_try(items) and form == "void":
                 continue
             cases.append(make_case(i, items, form))
     runner = core.Runner("c03", batch_size=150, prelude=PRELUDE)
